@@ -172,20 +172,32 @@ def dist_terms_rule(ctx):
             res.ok("Bernoulli: -x*softplus(-l) - (1-x)*softplus(l), summed over the event dims")
         else:
             res.fail(Finding("DIST-TERMS", fi.module, fi.qualname, path.ret_node, "Bernoulli log-likelihood is not -x*softplus(-logits) - (1-x)*softplus(logits); found terms %s" % sorted(got)))
-    # mean = sigmoid(logits); sample thresholds uniform noise at sigmoid(logits)
-    for mname, want in (("_mean", "return"), ("_sample", "probs")):
-        m = cls.methods.get(mname)
-        txt = norm_text(m.node)
-        if "torch.sigmoid(logits)" in txt:
-            res.ok("Bernoulli.%s uses sigmoid(logits)" % mname)
-        else:
-            res.fail(Finding("DIST-TERMS", m.module, m.qualname, m.node, "Bernoulli.%s must use sigmoid(logits), the success probability of the log-density" % mname, construct="probability in %s" % mname))
-    sm = cls.methods.get("_sample")
-    cmp_ok = any(isinstance(n, ast.Compare) and len(n.ops) == 1 and isinstance(n.ops[0], (ast.Lt, ast.LtE)) and norm_text(n.left) == "noise" and norm_text(n.comparators[0]) == "probs" for n in ast.walk(sm.node)) or any(isinstance(n, ast.Compare) and len(n.ops) == 1 and isinstance(n.ops[0], (ast.Gt, ast.GtE)) and norm_text(n.left) == "probs" and norm_text(n.comparators[0]) == "noise" for n in ast.walk(sm.node))
-    if cmp_ok:
-        res.ok("Bernoulli sample: noise < probs")
+    # mean = sigmoid(logits); sample thresholds uniform noise at sigmoid(logits)  (on expansions)
+    prob = "torch.sigmoid(self._compute_params(context))"
+    m = cls.methods.get("_mean")
+    okm = any(pp.kind == "return" and norm_text(pp.ret).replace(" ", "") == prob.replace(" ", "") for pp in paths_of(m.node))
+    if okm:
+        res.ok("Bernoulli._mean = sigmoid(logits)")
     else:
-        res.fail(Finding("DIST-TERMS", sm.module, sm.qualname, sm.node, "Bernoulli samples must be (uniform noise < probs)", construct="threshold in _sample"))
+        res.fail(Finding("DIST-TERMS", m.module, m.qualname, m.node, "Bernoulli._mean must return sigmoid(logits), the success probability of the log-density", construct="probability in _mean"))
+    sm = cls.methods.get("_sample")
+    oks = False
+    for pp in paths_of(sm.node):
+        if pp.kind != "return":
+            continue
+        for n in ast.walk(pp.ret):
+            if isinstance(n, ast.Compare) and len(n.ops) == 1:
+                l, r = n.left, n.comparators[0]
+                op = type(n.ops[0])
+                lt, rt = norm_text(l), norm_text(r)
+                if op in (ast.Lt, ast.LtE) and "torch.rand(" in lt and prob in rt and "torch.rand" not in rt:
+                    oks = True
+                if op in (ast.Gt, ast.GtE) and "torch.rand(" in rt and prob in lt and "torch.rand" not in lt:
+                    oks = True
+    if oks:
+        res.ok("Bernoulli sample: uniform noise < sigmoid(logits)")
+    else:
+        res.fail(Finding("DIST-TERMS", sm.module, sm.qualname, sm.node, "Bernoulli samples must be (uniform noise < sigmoid(logits))", construct="threshold in _sample"))
     # --- conditional normal: component roles (means, log_stds) agree across the three methods
     cdn = p.find_class("ConditionalDiagonalNormal", "nflows.distributions.normal")
     cp = cdn.methods.get("_compute_params")
@@ -194,26 +206,43 @@ def dist_terms_rule(ctx):
         res.ok("_compute_params returns (means, log_stds)")
     else:
         res.undecide("ConditionalDiagonalNormal._compute_params", "does not return (means, log_stds)")
-    for mname in ("_log_prob", "_sample", "_mean"):
-        m = cdn.methods.get(mname)
-        okm = False
-        for n in ast.walk(m.node):
-            if isinstance(n, ast.Assign) and isinstance(n.value, ast.Call) and attr_chain(n.value.func) == "self._compute_params" and isinstance(n.targets[0], ast.Tuple):
-                names = [norm_text(e) for e in n.targets[0].elts]
-                okm = names[0] == "means" and (names[1] in ("log_stds", "_"))
-        if okm:
-            res.ok("ConditionalDiagonalNormal.%s unpacks (means, log_stds)" % mname)
-        else:
-            res.fail(Finding("DIST-TERMS", m.module, m.qualname, m.node, "%s must unpack _compute_params as (means, log_stds)" % mname, construct="parameter roles in %s" % mname))
+    lp = cdn.methods.get("_log_prob")
+    oklp = False
+    for pp in paths_of(lp.node):
+        if pp.kind != "return":
+            continue
+        t = norm_text(pp.ret)
+        c0 = "__component__(self._compute_params(context), 0)"
+        c1 = "__component__(self._compute_params(context), 1)"
+        # (inputs - means) * exp(-log_stds); - sum(log_stds)
+        if ("(inputs - %s) * torch.exp(-%s)" % (c0, c1)) in t and ("sum_except_batch(%s" % c1) in t:
+            oklp = True
+    if oklp:
+        res.ok("ConditionalDiagonalNormal._log_prob: component 0 is the mean, component 1 the log-std")
+    else:
+        res.fail(Finding("DIST-TERMS", lp.module, lp.qualname, lp.node, "_log_prob must standardise with (inputs - means) * exp(-log_stds) and subtract sum(log_stds), with means / log_stds the first / second component of _compute_params", construct="parameter roles in _log_prob"))
     s = cdn.methods.get("_sample")
-    stxt = norm_text(s.node)
-    if "stds = torch.exp(log_stds)" in stxt and "means + stds * noise" in stxt:
+    oksmp = False
+    for pp in paths_of(s.node):
+        if pp.kind != "return":
+            continue
+        from .flow_rules import strip_wrappers
+
+        core = strip_wrappers(pp.ret)
+        if isinstance(core, ast.BinOp) and isinstance(core.op, ast.Add):
+            sides = [norm_text(core.left), norm_text(core.right)]
+            c0 = "__component__(self._compute_params(context), 0)"
+            c1 = "torch.exp(__component__(self._compute_params(context), 1))"
+            for mean_t, noise_t in (sides, sides[::-1]):
+                if c0 in mean_t and "randn" not in mean_t and c1 not in mean_t and c1 in noise_t and "torch.randn(" in noise_t:
+                    oksmp = True
+    if oksmp:
         res.ok("ConditionalDiagonalNormal._sample: means + exp(log_stds) * noise")
     else:
         res.fail(Finding("DIST-TERMS", s.module, s.qualname, s.node, "samples must be means + exp(log_stds) * standard normal noise", construct="reparameterisation in _sample"))
     mm = cdn.methods.get("_mean")
-    r = [n for n in ast.walk(mm.node) if isinstance(n, ast.Return)]
-    if len(r) == 1 and norm_text(r[0].value) == "means":
+    r = [pp for pp in paths_of(mm.node) if pp.kind == "return"]
+    if len(r) == 1 and norm_text(r[0].ret) == "__component__(self._compute_params(context), 0)":
         res.ok("ConditionalDiagonalNormal._mean returns the means")
     else:
         res.fail(Finding("DIST-TERMS", mm.module, mm.qualname, mm.node, "_mean must return the means component", construct="_mean result"))
@@ -265,14 +294,30 @@ def dist_terms_rule(ctx):
                     idx.append(const_number(last) if last is not None else None)
                 return names, idx
         return None, None
+    lp = mog.methods.get("log_prob")
     n1, i1 = slots(lp)
     n2, i2 = slots(smp)
-    if n1 and n2 and n1 == n2 and i1 == i2 == [0, 1, 2]:
+
+    def roles(fn, names):
+        """slot0 -> log_softmax, slot2 -> softplus (positivity), slot1 -> neither"""
+        if not names:
+            return None
+        txt = norm_text(fn.node)
+        return ("log_softmax(%s" % names[0] in txt, "softplus(%s" % names[2] in txt, "softplus(%s" % names[1] not in txt and "log_softmax(%s" % names[1] not in txt)
+
+    if n1 and n2 and i1 == i2 == [0, 1, 2] and roles(lp, n1) == roles(smp, n2) == (True, True, True):
         res.ok("mixture: log_prob and sample read (logits, means, unconstrained_stds) from slots 0,1,2")
     else:
         res.fail(Finding("DIST-TERMS", smp.module, smp.qualname, smp.node, "log_prob and sample read the mixture parameters from different slots (%s %s / %s %s)" % (n1, i1, n2, i2), construct="parameter slots of the mixture"))
-    std1 = [norm_text(n.value) for n in ast.walk(lp.node) if isinstance(n, ast.Assign) and norm_text(n.targets[0]) == "stds"]
-    std2 = [norm_text(n.value) for n in ast.walk(smp.node) if isinstance(n, ast.Assign) and norm_text(n.targets[0]) == "stds"]
+    def std_form(fn, names):
+        out = []
+        for n in ast.walk(fn.node):
+            if isinstance(n, ast.Call) and norm_text(n.func).split(".")[-1] == "softplus" and n.args and names and norm_text(n.args[0]) == names[2]:
+                par = getattr(n, "_parent", None)
+                out.append(norm_text(par).replace(names[2], "$S") if isinstance(par, ast.BinOp) else norm_text(n).replace(names[2], "$S"))
+        return out
+
+    std1, std2 = std_form(lp, n1), std_form(smp, n2)
     if std1 and std2 and std1[0] == std2[0]:
         res.ok("mixture: the same positivity transform for stds in log_prob and sample")
     else:
